@@ -63,9 +63,9 @@ def one(name):
 names = sorted(n for n in os.listdir(SRC) if os.path.isdir(os.path.join(SRC, n)) and os.path.exists(os.path.join(SRC, n, "patch.diff")))
 if ONLY:
     names = [n for n in names if any(n.startswith(o) for o in ONLY)]
-with ThreadPoolExecutor(4) as ex:
+with ThreadPoolExecutor(int(os.environ.get("EV_THREADS", "4"))) as ex:
     res = list(ex.map(one, names))
-json.dump(res, open("/tmp/ev_out/results.json", "w"), indent=1)
+json.dump(res, open(os.environ.get("EV_RESULTS", "/tmp/ev_out/results.json"), "w"), indent=1)
 for r in res:
     det = "DETECTED" if r.get("check_rc") == 1 else ("undecided" if r.get("check_rc") == 2 else ("MISSED" if r.get("check_rc") == 0 else f"rc={r.get('check_rc')}"))
     print(f"{r['name']:8s} applies={r.get('applies')} demo clean/mutant={r.get('demo_clean_rc')}/{r.get('demo_mutant_rc')} tests={r.get('tests_rc', '-')} -> {det} {r.get('check_s', '')}s  {(r.get('check_lines') or [''])[0][:120]}")
